@@ -123,6 +123,51 @@ def _derived(a: ast.expr) -> bool:
     return True
 
 
+def vecu_seed_harness(I: Interp) -> None:
+    """`RngVirtualECU._server`: the virtual ECU is built from exactly the seed and arguments of
+    the configuration - for every integer seed (0 included), with no other source mixed in."""
+    import random as _random
+    import gallia.command  # noqa: F401
+    from gallia.commands.script import vecu
+    sv = SVm()
+    from contracts.c15 import Stub
+    from pyvc import models
+    from pyvc.values import VObj, VInt, VTuple, NONE
+    seed = I.fresh_int("seed", inp=True)
+    cfg = VObj(Stub, {"seed": seed}, lazy=True, tag="config")
+    built: list[tuple] = []
+
+    def mk(I2: Interp, cls: type, a: list, k: dict) -> Any:
+        built.append((a, k))
+        return VObj(Stub, {}, lazy=True, tag="server")
+    models.CLASS_MODELS[sv.RandomUDSServer] = mk
+    drew = {"n": 0}
+
+    def randint(I2: Interp, a: list, k: dict) -> Any:
+        drew["n"] += 1
+        return I2.fresh_int("global_random_draw")
+    models.MODELS[_random.randint] = randint
+    obj = VObj(vecu.RngVirtualECU, {"config": cfg})
+    try:
+        I.call_v(I.getattr_v(obj, "_server"), [], {})
+    except PyExc as e:
+        I.fail("V-_server-does-not-raise", e.exc.cls.__name__)
+        return
+    finally:
+        models.CLASS_MODELS.pop(sv.RandomUDSServer, None)
+    I.prove("V-exactly-one-server-is-built", z3.BoolVal(len(built) == 1))
+    if len(built) != 1:
+        return
+    a, k = built[0]
+    got = a[0] if a else k.get("seed")
+    I.prove("V-server-seed-is-the-configured-seed(for-every-int,0-included)",
+            got.t == seed.t if getattr(got, "t", None) is not None else z3.BoolVal(False))
+    I.prove("V-no-draw-from-the-global-random-module", z3.BoolVal(drew["n"] == 0))
+    rest = list(a[1:]) + list(k.values())
+    I.prove("V-randomness-and-behaviour-arguments-come-from-the-configuration",
+            z3.BoolVal(all(x is cfg for x in rest) and len(rest) == 2))
+
+
 # --------------------------------------------------------------------------- bounded stand-in
 def check_model(services: dict, params: Any) -> list[str]:
     """Postcondition of randomize(), from the statement."""
@@ -234,11 +279,34 @@ def standin_unit(tier: str, seed: int):
 
 def build_units(tier: str, seed: int = 0) -> list[Unit]:
     return [Unit("effects/determinism", effect_harness),
+            Unit("vecu/RngVirtualECU._server", vecu_seed_harness),
             Unit("standin/randomize", standin_unit(tier, seed),
                  bounded="6 parameter sets x 60 (quick) / 400 (thorough) seeds; 3 hash seeds")]
 
 
+def native_vecu(model: dict) -> tuple[bool, str]:
+    import logging
+    logging.disable(logging.CRITICAL)
+    import gallia.command  # noqa: F401
+    from gallia.commands.script import vecu
+    seeds = [0, 1, 3, 2 ** 31]
+    if isinstance(model.get("seed"), int) and model["seed"] >= 0:
+        seeds.insert(0, model["seed"])
+    for sd in seeds:
+        got = []
+        for _ in range(2):
+            cfg = vecu.RngVirtualECUConfig(target="unix-lines:///tmp/c16-vecu.sock", seed=sd)
+            got.append(vecu.RngVirtualECU(cfg)._server().seed)
+        if got != [sd, sd]:
+            return True, f"two virtual ECUs started with --seed {sd} run with the seeds {got}"
+    return False, f"seeds {seeds} are passed through unchanged"
+
+
 def native_replay(unit: str, obligation: str, model: dict) -> tuple[bool, str]:
+    if unit.startswith("vecu/"):
+        return native_vecu(model)
+    if unit.startswith("effects/"):
+        return False, "syntactic obligation (see the named call site)"
     r = standin("quick", 0)
     return r["n_bad"] > 0, "; ".join(r["violations"][:4]) or "stand-in holds"
 
